@@ -21,7 +21,7 @@ MANIFEST = {
           '(6 replacement values per position) of valid line and pickle streams is fed. Only an over-length item may '
           'close the connection.',
   'note': 'Characters that str.splitlines() treats as line breaks are outside the malformed alphabet (TCP and UDP '
-          'legitimately differ there, DESIGN.md I4).',
+          'legitimately differ there, DESIGN.md I4). PICKLE_RECEIVER_MAX_LENGTH configured (64, 4096, 3 MiB) before the listener module is imported: a frame of exactly that length is ingested.',
 }
 
 V1 = ('a.b', 1700000000, 1.5)
